@@ -5,7 +5,7 @@
 // the single harness PRNG.  One line per operation, `op => observation`; the protocol is documented in
 // lean/AsherahVerif/Driver/Kms.lean.  Modes: exhaustive (all failure subsets x preferred regions x
 // plugin pairs), edge (hand-picked + seeded random: tampered envelopes, alias KeyId, bad keys, ...),
-// replay (a file of op lines; observations and '#' comments are ignored).
+// replay (a file of op lines, `-` = stdin; observations and '#' comments are ignored).
 package main
 
 import (
@@ -18,6 +18,7 @@ import (
 	"fmt"
 	"io"
 	"os"
+	osexec "os/exec"
 	"sort"
 	"strconv"
 	"strings"
@@ -69,6 +70,9 @@ type cloud struct {
 
 var cur *cloud
 
+// op lines of the current case (replayed in a child process when an operation would kill the process)
+var history []string
+
 func newCloud(spec string) *cloud {
 	c := &cloud{spec: spec, keys: map[string][]byte{}, payloads: map[int][]byte{}}
 	if spec != "" {
@@ -114,11 +118,13 @@ func (c *cloud) key(id int, valid bool) []byte {
 	if b, ok := c.keys[k]; ok {
 		return b
 	}
-	n := 32
+	n, salt := 32, uint64(1)
 	if !valid {
-		n = 5
+		n, salt = 5, 2
 	}
-	b := rng.Bytes(n)
+	// key and payload bytes are a function of (seed, id): drawing them lazily from the case generator's
+	// stream would make the generated cases depend on Go's map iteration order (which clients get asked)
+	b := prng.New(prng.Seed()*1000003 + uint64(id)*4 + salt).Bytes(n)
 	b[0] |= 1 // never all-zero: a wiped buffer is distinguishable from a key
 	c.keys[k] = b
 	return b
@@ -128,7 +134,7 @@ func (c *cloud) payload(id int) []byte {
 	if b, ok := c.payloads[id]; ok {
 		return b
 	}
-	b := rng.Bytes(32)
+	b := prng.New(prng.Seed()*1000003 + uint64(id)*4 + 3).Bytes(32)
 	c.payloads[id] = b
 	return b
 }
@@ -440,10 +446,14 @@ func exec(op string) {
 	}
 	a := kv(f)
 	obs := ""
+	if f[0] != "new" {
+		history = append(history, op)
+	}
 	switch f[0] {
 	case "new":
 		cur = newCloud(a["regions"])
 		plugs = map[string]*plug{}
+		history = []string{op}
 		fmt.Fprintln(out, op)
 		return
 	case "plug":
@@ -454,6 +464,13 @@ func exec(op string) {
 		p := plugs[f[1]]
 		if p == nil || p.kms == nil {
 			die("wrap: no such plugin: " + op)
+		}
+		if _, v2 := p.kms.(*kmsv2.AWSKMS); v2 && a["kid"] == "nil" && a["key"] == "ok" && strings.Contains(a["gen"], "0") &&
+			os.Getenv("HXKMS_CHILD") == "" {
+			// v2 dereferences the missing KeyId in a goroutine of its own: nothing can recover that, the
+			// process dies.  Observe it in a child that replays this case.
+			obs = inChild()
+			break
 		}
 		n := len(cur.regions)
 		cur.reset()
@@ -492,7 +509,7 @@ func exec(op string) {
 	case "craft":
 		var ek []byte
 		if a["ek"] == "junk" {
-			ek = rng.Bytes(40)
+			ek = prng.New(prng.Seed() + 77).Bytes(40)
 		} else {
 			p := strings.Split(a["ek"], ":")
 			var err error
@@ -574,6 +591,24 @@ func exec(op string) {
 		die("bad op: " + op)
 	}
 	fmt.Fprintf(out, "%s => %s\n", op, obs)
+}
+
+func inChild() string {
+	out.Flush()
+	cmd := osexec.Command(os.Args[0], "-mode", "replay", "-file", "-")
+	cmd.Env = append(os.Environ(), "HXKMS_CHILD=1")
+	cmd.Stdin = strings.NewReader(strings.Join(history, "\n") + "\n")
+	var stderr strings.Builder
+	cmd.Stderr = &stderr
+	err := cmd.Run()
+	e := stderr.String()
+	if err != nil && strings.Contains(e, "nil pointer dereference") && strings.Contains(e, "encryptAllRegions") {
+		return "fatal"
+	}
+	if err != nil {
+		return "child-died-otherwise"
+	}
+	return "child-survived"
 }
 
 func (c *cloud) payloadName(b []byte) string {
@@ -781,6 +816,9 @@ func edge(cases int) {
 		// malformed data key: the AEAD refuses it after the plaintext exists
 		{"new regions=r0:a0,r1:a1", "plug A v1 pref=r0", "plug B v2 pref=r0",
 			"wrap A pt=1 dk=1 gen=10 enc=00 kid=same key=bad", "wrap B pt=1 dk=2 gen=00 enc=00 kid=same key=bad"},
+		// ... and in v2 the same nil KeyId is dereferenced in a goroutine: the process dies (observed in a child)
+		{"new regions=r0:a0,r1:a1", "plug B v2 pref=r1", "wrap B pt=1 dk=1 gen=00 enc=00 kid=nil key=ok",
+			"wrap B pt=2 dk=2 gen=01 enc=00 kid=same key=ok", "unwrap B env=0 dec=00"},
 		// two regions sharing one master key ARN
 		{"new regions=r0:a0,r1:a0,r2:a2", "plug A v1 pref=r1", "plug B v2 pref=r2",
 			"wrap A pt=1 dk=1 gen=000 enc=111 kid=same key=ok", "wrap B pt=2 dk=2 gen=000 enc=001 kid=same key=ok",
@@ -861,8 +899,8 @@ func randomCase(seq int) {
 		case 0:
 			dk++
 			kid := []string{"same", "same", "same", "other", "nil"}[rng.Intn(5)]
-			if kid == "nil" && isV2(p) {
-				kid = "other" // v2 dereferences the KeyId in a goroutine of its own: the process would die
+			if kid == "nil" && isV2(p) && rng.Intn(8) > 0 {
+				kid = "other" // v2 + nil KeyId kills the process: needs a child process per case, keep it rare
 			}
 			key := "ok"
 			if rng.Intn(10) == 0 {
@@ -897,17 +935,20 @@ func randomCase(seq int) {
 			if len(cur.envs) > 0 && rng.Intn(20) > 0 {
 				env = strconv.Itoa(rng.Intn(len(cur.envs)))
 			}
-			exec(fmt.Sprintf("unwrap %s env=%s dec=%s", p, env, rmask(4, 40)))
+			exec(fmt.Sprintf("unwrap %s env=%s dec=%s", p, env, rmask(4, 30)))
 		}
 	}
 }
 
 func replay(path string) {
-	f, err := os.Open(path)
-	if err != nil {
-		die(err.Error())
+	f := os.Stdin
+	if path != "-" {
+		var err error
+		if f, err = os.Open(path); err != nil {
+			die(err.Error())
+		}
+		defer f.Close()
 	}
-	defer f.Close()
 	sc := bufio.NewScanner(f)
 	sc.Buffer(make([]byte, 1<<20), 1<<20)
 	for sc.Scan() {
